@@ -127,10 +127,10 @@ def stepTemplate (st : TmplSt) (toks : List String) : Option (TmplSt × String) 
           if isClass31Factor n.desc && n.flags.class31 && !n.expanded && !n.skipped && n.hasVal then
             let v := vs.getD (acc.2 % vs.length) 0
             let v' := v % 2 ^ n.enc.nbits.toNat
-            (acc.1 ++ [{ n with val := n.val.setInt32 v' }], acc.2 + 1)
-          else (acc.1 ++ [n], acc.2)
-        let (ns, k) := s.nodes.foldl step ([], 0)
-        some ({ st with subsets := st.subsets.set! p { nodes := ns } }, s!"{k}")
+            ({ n with val := n.val.setInt32 v' } :: acc.1, acc.2 + 1)
+          else (n :: acc.1, acc.2)
+        let (nsRev, k) := s.nodes.foldl step ([], 0)
+        some ({ st with subsets := st.subsets.set! p { nodes := nsRev.reverse } }, s!"{k}")
       | none => some (st, "none")
     | _, _ => some (st, "bad-op")
   | ["ss.expand", p] =>
